@@ -173,9 +173,10 @@ const (
 	fStruct = 0
 	fMap    = 1
 	fKV     = 2
+	fPtr    = 3 // pointer to struct: treated exactly like the struct value
 )
 
-var formName = []string{"struct", "map", "kv"}
+var formName = []string{"struct", "map", "kv", "ptr"}
 
 func isZeroV(v interface{}) bool {
 	switch t := v.(type) {
@@ -190,7 +191,7 @@ func isZeroV(v interface{}) bool {
 // effective returns the pairs that a content in the given form really carries:
 // a struct carries only its non-zero fields, a map / key-value pair everything.
 func (c Content) effective(form int) Content {
-	if form != fStruct {
+	if form != fStruct && form != fPtr {
 		return c
 	}
 	var o Content
@@ -277,6 +278,14 @@ func (c Content) args(m int, form int) []interface{} {
 	switch form {
 	case fStruct:
 		return []interface{}{structOf(m, c)}
+	case fPtr:
+		switch v := structOf(m, c).(type) {
+		case User:
+			return []interface{}{&v}
+		case SUser:
+			return []interface{}{&v}
+		}
+		panic("structOf")
 	case fMap:
 		mp := map[string]interface{}{}
 		for _, kv := range c {
